@@ -856,7 +856,14 @@ bus_match_rule_parse_arg_match (BusMatchRule     *rule,
       goto failed;
     }
 
-  if (!_dbus_string_parse_uint (&key_str, 3, &arg, &end))
+  /* The argument number is a plain decimal number. _dbus_string_parse_uint()
+   * would auto-detect the base (arg010 would mean arg8, arg0x10 arg16) and
+   * skip a sign or leading whitespace, so only let it see "0" or digits
+   * that do not start with 0. */
+  if (key[3] < '0' || key[3] > '9' ||
+      (key[3] == '0' && key[4] >= '0' && key[4] <= '9') ||
+      (key[3] == '0' && (key[4] == 'x' || key[4] == 'X')) ||
+      !_dbus_string_parse_uint (&key_str, 3, &arg, &end))
     {
       dbus_set_error (error, DBUS_ERROR_MATCH_RULE_INVALID,
                       "Key '%s' in match rule starts with 'arg' but could not parse arg number. Should be 'arg0' or 'arg7' for example.\n", key);
